@@ -2,17 +2,39 @@ import CookModel.Basic.Proto
 import CookModel.Syntax.CharTable
 import CookModel.Driver.Render
 import CookModel.Analysis.Collector
+import CookModel.Side.StdMeta
+import CookModel.Num.Convert
 namespace Cook.Driver
 open Cook Proto
 
 def renderTok (t : Tok) : String := s!"{t.kind.name}:{t.start}:{t.stop}"
+
+/-- the converter as `check_std_entry` sees it (time units, ratios, the name index) -/
+def smConv (c : Converter Float) : SM.Conv Float :=
+  ⟨c.allUnits.map (fun u => ⟨u.pq == .time, u.ratio, u.difference⟩),
+   fun k => c.allUnits.findIdx? (fun u => u.allKeys.contains k)⟩
+
+def toSMKey : Cook.StdKey → SM.StdKey
+  | .title => .title | .description => .description | .tags => .tags | .author => .author
+  | .source => .source | .course => .course | .time => .time | .prepTime => .prepTime
+  | .cookTime => .cookTime | .servings => .servings | .difficulty => .difficulty
+  | .cuisine => .cuisine | .diet => .diet | .images => .images | .locale => .locale
+
+def uniAlpha (c : Char) : Bool := classBits c &&& 32 != 0
+
+def bundledSM : SM.Conv Float := smConv (Converter.bundled Float)
+def emptySM : SM.Conv Float := smConv (Converter.empty (mkTable Float Gen.DENOMS))
 
 /-- the environment of a real parser: extensions, empty (0) or bundled (1) converter -/
 def realEnv (ext conv : Nat) : Env where
   cs := realCharSpec
   ext := ⟨ext⟩
   findUnit := if conv == 0 then fun _ => none else bundledFindUnit
-  stdCheck := fun _ _ => .ok      -- until the std-metadata model is plugged in (its effects are filtered from the reply)
+  stdCheck := fun k v =>
+    match SM.checkStdEntry (if conv == 0 then emptySM else bundledSM) uniAlpha (toSMKey k) (.str v) with
+    | none => .rejected
+    | some none => .ok
+    | some (some l) => .servings l
   fold := realFold
   timeQ := 4
 
